@@ -875,6 +875,12 @@ impl Session {
             Err(_) => return,
         };
 
+        // Peers are told apart by address: second connection under the address of connected peer
+        // would take over its record (assigned piece, job), so refuse it like a known candidate
+        if self.peers.contains_key(&addr) {
+            return;
+        }
+
         let mut peer_handler = PeerHandler::new(
             addr.clone(),
             self.own_id,
